@@ -7,8 +7,12 @@
     the go/types view of each wrapped package in $GOROOT/src and the release lists of $GOROOT/api.
     The theorems about them are finite and proved by computation (one shard per file,
     Bind/Shard*.v); the bound "the rows of these files at this commit" is [In g all_groups].
-    (The tables of the other 47 platforms are decided by the same functions, evaluated by coqc in
-    the cases files of the thorough tier.)  The other theorems are unbounded. *)
+    The tables of the other platforms for the release the installed toolchain compiles
+    ([xplat_groups]: stdlib/syscall/go1_N_syscall_<os>_<arch>.go and their stdlib/unrestricted
+    counterparts, 47 platform pairs, each with the go/types truth of its own GOOS/GOARCH) are
+    regenerated and decided on every run as well (Bind/ShardX*.v, [C14_xplat_*] below).  (The
+    tables of the other release are decided by the same functions, evaluated by coqc in the cases
+    files of the thorough tier.)  The other theorems are unbounded. *)
 From Verif Require Import Lib.Str Bind.Literal Bind.Model Bind.Proofs Bind.Tables.
 Open Scope Z_scope.
 
@@ -16,15 +20,17 @@ Open Scope Z_scope.
     every row denotes its object exactly, nothing the release declares is missing, every wrapper
     forwards. *)
 Definition C14_statement : Prop :=
-  forall g, In g all_groups ->
+  forall g, In g (all_groups ++ xplat_groups) ->
     (forall f r, In f (g_files g) -> In r (f_rows f) -> row_ok const_g g f r = true)
     /\ complete g = true /\ forwards g = true.
 
 (* ------------------------------------------------------------------ *)
 (** * The tables *)
 
-(** Faithfulness, partial: every row outside the region "untyped float constant whose value is not
-    a dyadic rational" denotes exactly the object it is named after. *)
+(** Faithfulness, partial: every row outside the regions "untyped float constant whose value is not
+    a dyadic rational" and "untyped rune constant" ([row_region] = [const_region] of the object's
+    kind) denotes exactly the object it is named after: same identifier / exactly the same value,
+    and for literals the same untyped kind (token), i.e. the same default type. *)
 Theorem C14_faithful_partial :
   forall g f r, In g all_groups -> In f (g_files g) -> In r (f_rows f) ->
                 row_region g r = false -> row_ok const_g g f r = true.
@@ -67,15 +73,88 @@ Proof. exact tables_refuted. Qed.
 Print Assumptions C14_tables_refuted.
 
 Theorem C14_statement_refuted : ~ C14_statement.
-Proof. exact statement_refuted. Qed.
+Proof. exact statement_all_refuted. Qed.
 Print Assumptions C14_statement_refuted.
+
+(** Second refutation (the untyped KIND of a constant): a row of stdlib/go1_22_unicode_utf8.go (found
+    by computation: an untyped rune constant, "MaxRune"/"RuneError") is what the generator emits,
+    lies in the region, and does not denote the constant: the literal is an INT literal (default
+    type int) where Go declares a rune constant (default type rune).
+    Replay: fmt.Printf("%T", utf8.RuneError) prints int32 compiled and int under yaegi. *)
+Theorem C14_rune_tables_refuted :
+  exists g f r z, In g all_groups /\ In f (g_files g) /\ In r (f_rows f)
+    /\ row_kind g r = Some (KURune z) /\ row_ok const_y g f r = true /\ row_region g r = true
+    /\ row_ok const_g g f r = false.
+Proof. exact rune_refuted. Qed.
+Print Assumptions C14_rune_tables_refuted.
+
+(** ... and this is so for EVERY untyped rune constant and every bound expression (unbounded): what
+    the generator model accepts is an INT literal of exactly the constant's value (the value is
+    never wrong) and the property rejects it (the kind always is). *)
+Theorem C14_generator_rune_refuted :
+  forall f tp name z fm, obj_row_ok const_y f tp name (KURune z) fm = true ->
+    (exists lit n d, fm = FLit TINT lit /\ parse_literal TINT lit = Some (n, d) /\ n * 1 = z * d)
+    /\ obj_row_ok const_g f tp name (KURune z) fm = false.
+Proof. exact obj_row_rune_spec. Qed.
+Print Assumptions C14_generator_rune_refuted.
+
+(* ------------------------------------------------------------------ *)
+(** * The tables of the other platforms (cross-platform rows, quick set) *)
+
+(** Every row of every binding file of another platform is what the generator emits for the
+    identically named object of package syscall AS go/types SEES IT FOR THAT GOOS/GOARCH ... *)
+Theorem C14_xplat_rows_are_generated :
+  forall g f r, In g xplat_groups -> In f (g_files g) -> In r (f_rows f) -> row_ok const_y g f r = true.
+Proof. exact xplat_rows_generated. Qed.
+Print Assumptions C14_xplat_rows_are_generated.
+
+(** ... hence denotes it exactly (same value for that platform) outside the float region. *)
+Theorem C14_xplat_faithful_partial :
+  forall g f r, In g xplat_groups -> In f (g_files g) -> In r (f_rows f) ->
+                row_region g r = false -> row_ok const_g g f r = true.
+Proof. exact xplat_rows_exact_outside. Qed.
+Print Assumptions C14_xplat_faithful_partial.
+
+(** Non-vacuity, and platform dependence of the truth: some cross-platform table binds
+    O_LARGEFILE, the constant is NOT 0 there (it is 0 on the host), and the row denotes it exactly. *)
+Theorem C14_xplat_inhabited :
+  exists g f r z, In g xplat_groups /\ In f (g_files g) /\ In r (f_rows f)
+    /\ r_name r = s "O_LARGEFILE" /\ row_kind g r = Some (KUInt z) /\ z <> 0
+    /\ row_region g r = false /\ row_ok const_g g f r = true.
+Proof. exact xplat_inhabited. Qed.
+Print Assumptions C14_xplat_inhabited.
+
+(** Forwarding, full, for the wrappers of every platform. *)
+Theorem C14_xplat_forward_full : forall g, In g xplat_groups -> forwards g = true.
+Proof. exact xplat_forward. Qed.
+Print Assumptions C14_xplat_forward_full.
+
+(** Completeness, partial: up to the regenerated drift list (objects the installed, later, release
+    declares for a platform $GOROOT/api is silent about, absent from both releases of the table). *)
+Theorem C14_xplat_complete_partial : forall g, In g xplat_groups -> complete_upto xplat_drift g = true.
+Proof. exact xplat_complete_upto. Qed.
+Print Assumptions C14_xplat_complete_partial.
+
+(** What that means, for all tables and drift lists: an object without its rows is a listed drift
+    object without api record; with an empty list it is completeness itself. *)
+Theorem C14_complete_upto_means :
+  forall drift g, complete_upto drift g = true -> g_complete g = true ->
+  forall tp t, In tp (g_truth g) -> In t (tp_objs tp) ->
+  obj_complete g tp t = true \/ (t_api t = ANone /\ In (t_id t) drift).
+Proof. exact complete_upto_spec. Qed.
+Print Assumptions C14_complete_upto_means.
+
+Theorem C14_complete_upto_nil : forall g, complete_upto [] g = complete g.
+Proof. exact complete_upto_nil. Qed.
+Print Assumptions C14_complete_upto_nil.
 
 (* ------------------------------------------------------------------ *)
 (** * What the decision procedures decide (for all tables, not only today's) *)
 
 (** [row_ok const_g] on an object row is the relation [denotes] (Bind/Proofs.v): same qualifier
     and identifier, variables by address, types as nil pointers, documented replacements from the
-    regenerated restricted table, literals of exactly the constant's value. *)
+    regenerated restricted table, literals of exactly the constant's value AND untyped kind (an
+    untyped rune constant is denoted by CHAR literals only: [D_rune]). *)
 Theorem C14_decides_denotation :
   forall f tp name k fm, obj_row_ok const_g f tp name k fm = true <-> denotes f tp name k fm.
 Proof. exact obj_row_ok_denotes. Qed.
